@@ -250,6 +250,35 @@ func toTemplate(t []item) quickfix.GroupTemplate {
 	return gt
 }
 
+// the same template, but every nested group item already holds entries (a template object that was also used to write, as
+// applications do): reading through it must give what a fresh template gives
+func toUsedTemplate(t []item) quickfix.GroupTemplate {
+	gt := quickfix.GroupTemplate{}
+	for _, it := range t {
+		if it.isGrp {
+			rg := quickfix.NewRepeatingGroup(quickfix.Tag(it.tag), toUsedTemplate(it.sub))
+			if len(it.sub) > 0 {
+				for k := 0; k < 2; k++ {
+					rg.Add().SetBytes(quickfix.Tag(it.sub[0].tag), []byte("used"))
+				}
+			}
+			gt = append(gt, rg)
+		} else {
+			gt = append(gt, quickfix.GroupElement(quickfix.Tag(it.tag)))
+		}
+	}
+	return gt
+}
+
+func hasNested(t []item) bool {
+	for _, it := range t {
+		if it.isGrp {
+			return true
+		}
+	}
+	return false
+}
+
 // the template a nested group under tag t is built with: the first template item with that tag, if it is a group
 func subTemplate(t []item, tag int) []item {
 	for _, it := range t {
@@ -384,6 +413,18 @@ func observeParsed(c *gcase, raw []byte, transport, app *datadictionary.DataDict
 				gv = L(Sym("err"), Int(e.RejectReason()))
 			} else {
 				gv = OkV(viewGroup(rg, r.tmpl))
+			}
+			if hasNested(r.tmpl) {
+				used := quickfix.NewRepeatingGroup(tag, toUsedTemplate(r.tmpl))
+				var uv Sx
+				if e := m.Body.GetGroup(used); e != nil {
+					uv = L(Sym("err"), Int(e.RejectReason()))
+				} else {
+					uv = OkV(viewGroup(used, r.tmpl))
+				}
+				if SxString(uv) != SxString(gv) {
+					gv = L(Sym("used-template-differs"), uv, gv)
+				}
 			}
 			gl = append(gl, L(Bool(m.Body.Has(tag)), gv))
 		}
